@@ -699,6 +699,9 @@ def compile_gbnf_from_meta(meta: dict) -> str:
     from octave_mcp.core.schema_extractor import FieldDefinition, SchemaDefinition
 
     schema_type = meta.get("TYPE", "UNKNOWN")
+    if not isinstance(schema_type, str):
+        # A TYPE that is a number, boolean, null, list or block names no schema: same as a missing TYPE
+        schema_type = "UNKNOWN"
 
     # Create schema from META
     schema = SchemaDefinition(
